@@ -195,7 +195,7 @@ def run_consensus(ck, tags, oracle, tier, ntrees_quick=6, ntrees_thorough=40, ex
                 from skepticoin.humans import human
                 hchain = head.chain()
                 k = rng.randrange(1, head.height)
-                known = {h: human(hchain[h].id) for h in range(0, k + 1) if h == k or rng.random() < 0.6}
+                known = {h: human(hchain[h].id) for h in range(0, k + 1) if h in (0, k) or rng.random() < 0.6}     # the table always lists genesis
                 with chaingen.Env(period=env.period, block_span=env.span // env.period, interval=env.interval, hz=k,
                                   known=known) as envh:
                     for par in (hchain[k], hchain[min(k + 1, head.height)]):
